@@ -327,7 +327,7 @@ func varyOps(r *Rng, groups [][]jop) ([][]jop, string) {
 	if len(g) == 0 {
 		return g, "none"
 	}
-	switch r.Intn(7) {
+	switch r.Intn(8) {
 	case 0: // changed value in a matching test/remove pair
 		gi := r.Intn(len(g))
 		for j := 0; j+1 < len(g[gi]); j++ {
@@ -381,6 +381,33 @@ func varyOps(r *Rng, groups [][]jop) ([][]jop, string) {
 		}
 		g[gi] = ng
 		return g, "context-dropped"
+	case 7: // a context test that is NOT adjacent to the edit any more: jd must not read it as relative context
+		gi := r.Intn(len(g))
+		for j := 0; j < len(g[gi]); j++ {
+			o := g[gi][j]
+			isPair := o.Op == "test" && j+1 < len(g[gi]) && g[gi][j+1].Op == "remove" && g[gi][j+1].Path == o.Path
+			if o.Op != "test" || isPair {
+				break
+			}
+			if !r.Chance(1, 2) {
+				continue
+			}
+			switch r.Intn(3) {
+			case 0: // index moved on its own
+				if p, ok := shiftPath(o.Path, []int{-2, -1, 1, 2, 3}[r.Intn(5)]); ok {
+					g[gi][j].Path = p
+				}
+			case 1: // same index in another array
+				i := strings.LastIndex(o.Path, "/")
+				if i >= 0 {
+					g[gi][j].Path = o.Path[:i] + []string{"/0", "/other", "x"}[r.Intn(3)] + o.Path[i:]
+				}
+			default: // not a test at all
+				g[gi][j].Op = []string{"remove", "add", "replace"}[r.Intn(3)]
+			}
+			return g, "context-misplaced"
+		}
+		return g, "context-misplaced"
 	case 6: // the adds of a hunk moved in front of its test/remove pairs (same ops, different order)
 		gi := r.Intn(len(g))
 		adds, others := []jop{}, []jop{}
